@@ -68,10 +68,12 @@ def initHeap : Array Cell := #[
 ]
 
 /-- `NewInterpreter()` -/
-def newInterpreter : State :=
+def newVM : VM :=
   { stack := [], dictStack := [refUserDict, refSystemDict], heap := initHeap,
     roots := { systemDict := refSystemDict, userDict := refUserDict, errorDict := refErrorDict,
                internalDict := refInternalDict, fontDirectory := refFontDirectory,
                cmapDirectory := refCMapDirectory, resources := refResources } }
+
+def newInterpreter : State := { vm := newVM }
 
 end PsVerif.Model
